@@ -542,6 +542,29 @@ func callWrites(p *core.Prog, call *ssa.Call, w *ssa.Parameter) bool {
 	if call.Call.IsInvoke() && derived(call.Call.Value) {
 		return true
 	}
+	// a local function literal that captures the writer (or something built from it)
+	if !call.Call.IsInvoke() {
+		var mc *ssa.MakeClosure
+		switch x := call.Call.Value.(type) {
+		case *ssa.MakeClosure:
+			mc = x
+		case *ssa.UnOp:
+			if al, ok := x.X.(*ssa.Alloc); ok {
+				for _, st := range core.AllStoresToCell(al) {
+					if m, ok := st.Val.(*ssa.MakeClosure); ok {
+						mc = m
+					}
+				}
+			}
+		}
+		if mc != nil {
+			for _, b := range mc.Bindings {
+				if derived(b) {
+					return true
+				}
+			}
+		}
+	}
 	for _, a := range call.Call.Args {
 		if derived(a) {
 			return true
@@ -560,15 +583,20 @@ func writerRoot(fn *ssa.Function) *ssa.Parameter {
 			return prm
 		}
 	}
-	if fn.Signature.Recv() != nil && len(fn.Params) > 0 {
-		t := fn.Params[0].Type()
+	// a parameter (the receiver first) that carries the writer: a struct with an
+	// io.Writer field (a state object, a writer wrapper)
+	for i, prm := range fn.Params {
+		if i > 0 && fn.Signature.Recv() != nil && false {
+			break
+		}
+		t := prm.Type()
 		if pt, ok := t.Underlying().(*types.Pointer); ok {
 			t = pt.Elem()
 		}
 		if st, ok := t.Underlying().(*types.Struct); ok {
-			for i := 0; i < st.NumFields(); i++ {
-				if types.TypeString(st.Field(i).Type(), nil) == "io.Writer" {
-					return fn.Params[0]
+			for k := 0; k < st.NumFields(); k++ {
+				if types.TypeString(st.Field(k).Type(), nil) == "io.Writer" {
+					return prm
 				}
 			}
 		}
